@@ -385,6 +385,9 @@ class Facts:
 
     def with_closures(self, fn):
         """fn plus every closure nested in it"""
+        if fn.kind == "Closure":
+            sub = [c for c in self.closures_of.get(fn.root, []) if c.id.startswith(fn.id + "::")]
+            return [fn] + sorted(sub, key=lambda f: f.id)
         return [fn] + sorted(self.closures_of.get(fn.id, []), key=lambda f: f.id)
 
     def impls_of_trait(self, trait_def):
